@@ -9,6 +9,8 @@ Decided by rtc: exhaustive over the lattice {float32, float64, mixed} x operand 
 float} x result-rank class {0-d, >=1-d} x broadcasting pattern x upstream dtype, for the catalogue below (shapes bounded).
 dtype propagation is value-independent, so one seeded data point per configuration is used.  One VIOLATION per failure class.
 """
+import sys
+
 import numpy as np
 
 from ..report import Run
@@ -386,6 +388,100 @@ def grad_histories(run, seed, tier):
                             break
 
 
+OFFSETS = np.array([0.0, -150.0, -400.0, -30.0, -95.0, -12.0])
+
+
+def scale_part(run, ck, specs):
+    """'float32 results agree with the float64 results to single precision' on operands whose slices live at different scales: the first floating tensor operand is shifted
+    by 0/-150/-400/-30/-95/-12 along each of its axes in turn (ordinary finite numbers; a normalisation that is stabilised per slice is indifferent to this, one stabilised
+    with a global statistic underflows in float32 long before it does in float64).  Result and leaf gradients (unit upstream), both dtypes; configurations whose float64
+    run raises or is not finite (log of a negative number, ...) are outside the clause and skipped."""
+    for si, spec in specs:
+        if not spec.get("agree", True) or "dtypes" in spec:
+            continue
+        tpos = [k for k, o in enumerate(spec["ops"]) if o[0] == "T" and len(o[1]) >= 1]
+        if not tpos:
+            continue
+        k0 = tpos[0]
+        shape = spec["ops"][k0][1]
+        for axis in range(len(shape)):
+            if shape[axis] < 2:
+                continue
+            rng = np.random.default_rng([ck.seed, si, 7])
+            data = [None if o[0] in "SI" else (rng.uniform(0.1, 0.9, o[1]) if o[0] in "PU" else rng.uniform(0.5, 2.0, o[1])).astype(np.float32) for o in spec["ops"]]
+            sh = [1] * len(shape)
+            sh[axis] = shape[axis]
+            data[k0] = (data[k0] + np.resize(OFFSETS, shape[axis]).reshape(sh)).astype(np.float32)
+            nfl = sum(d is not None for d in data)
+            res = {}
+            try:
+                with np.errstate(all="ignore"):
+                    for dt in (F64, F32):
+                        operands = ck.build(spec, data, (dt,) * nfl)
+                        out = spec["fn"](operands, dt)
+                        o0 = out[0] if isinstance(out, (tuple, list)) else out
+                        vals = [np.asarray(o0.data, dtype=np.float64)]
+                        if o0.requires_grad:
+                            o0.backward(ck.Tensor(np.ones(o0.shape, dtype=dt)))
+                            vals += [np.asarray(t._grad, dtype=np.float64) for t in operands if hasattr(t, "_grad") and t._grad is not None]
+                        res[dt] = vals
+            except Exception:
+                continue
+            if not all(np.all(np.isfinite(v)) for v in res[F64]) or len(res[F64]) != len(res[F32]):
+                continue
+            run.rt(("scale", spec["api"], spec["pattern"], axis))
+            for j, (a, b) in enumerate(zip(res[F32], res[F64])):
+                tol = 1e-3 * max(1.0, float(np.max(np.abs(b), initial=0.0)))
+                if a.shape != b.shape or not np.all(np.isfinite(a)) or not np.all(np.abs(a - b) <= tol):
+                    what = "result" if j == 0 else "gradient %d" % (j - 1)
+                    run.violation("%s.float32_float64_agree" % spec["api"], "%s [%s]: with operand %d shifted by %s along axis %d the float32 %s is %s while the float64 one is %s" %
+                                  (spec["api"], spec["pattern"], k0, np.resize(OFFSETS, shape[axis]).tolist(), axis, what, a.tolist(), b.tolist()),
+                                  key={"api": spec["api"], "clause": "float32_float64_agree at mixed scales", "what": what},
+                                  replay={"api": spec["api"], "pattern": spec["pattern"], "operands": [None if d is None else d.tolist() for d in data], "axis": axis})
+                    break
+
+
+def upstream_shape_part(run, seed):
+    """'whatever the shapes ... of the upstream gradient': an upstream gradient whose shape merely BROADCASTS to the root's shape is either refused or expanded -- after
+    backward the root's .grad (leaf root, retained root, or under retain_grads) and every leaf's .grad have exactly their tensor's shape and dtype"""
+    Tensor, F, nn, NF = synapgrad_modules()
+    tm = sys.modules["synapgrad.tensor"]
+    rng = np.random.RandomState(seed + 9)
+    builders = [("leaf root", lambda x: x), ("functional.mul", lambda x: x * 2.0), ("functional.add", lambda x: x + x), ("nn.functional.relu", lambda x: NF.relu(x)),
+                ("functional.sum(keepdims)", lambda x: F.sum(x, 1, True)), ("functional.transpose", lambda x: F.transpose(x, 0, 1))]
+    for dt in (np.float32, np.float64):
+        for name, build in builders:
+            for how in ("retain_grad", "retain_grads", "plain"):
+                x = Tensor(rng.rand(3, 4).astype(dt) + 0.5, requires_grad=True)
+                y = build(x)
+                cands = {(), (1,), (y.shape[-1],), (1, y.shape[-1]), (y.shape[0], 1), (1, 1)} - {tuple(y.shape)}
+                for gs in sorted(cands, key=repr):
+                    for gdt in (np.float32, np.float64):
+                        x = Tensor(rng.rand(3, 4).astype(dt) + 0.5, requires_grad=True)
+                        y = build(x)
+                        if how == "retain_grad" and y is not x:
+                            y.retain_grad()
+                        g = Tensor(np.ones(gs, dtype=gdt))
+                        run.rt(("upstream-shape", name, how, np.dtype(dt).name, gs, np.dtype(gdt).name))
+                        try:
+                            if how == "retain_grads":
+                                with tm.retain_grads():
+                                    y.backward(g)
+                            else:
+                                y.backward(g)
+                        except Exception:
+                            continue            # refusing a gradient of another shape is fine
+                        bad = []
+                        if y._grad is not None and (tuple(np.shape(y._grad)) != tuple(y.shape) or np.asarray(y._grad).dtype != dt):
+                            bad.append("root .grad has shape %s dtype %s" % (np.shape(y._grad), np.asarray(y._grad).dtype))
+                        if x._grad is not None and (tuple(np.shape(x._grad)) != (3, 4) or np.asarray(x._grad).dtype != dt):
+                            bad.append("leaf .grad has shape %s dtype %s" % (np.shape(x._grad), np.asarray(x._grad).dtype))
+                        if bad:
+                            run.violation("Tensor.backward.grad_has_tensor_shape_and_dtype_for_any_upstream_gradient", "%s root of shape %s %s, backward(g) with g of shape %s %s (%s): %s" %
+                                          (name, tuple(y.shape), np.dtype(dt).name, gs, np.dtype(gdt).name, how, "; ".join(bad)),
+                                          key={"root": name, "upstream_shape": list(gs), "dtype": np.dtype(dt).name, "how": how}, replay={"root": name, "upstream_shape": list(gs)})
+
+
 def main(tier="quick", seed=0, procs=None, only=None):
     run = Run("C10", tier, seed, "exploration")
     run.assume("bounded stand-in: dtype/shape contracts are executed natively; NumPy's promotion rules are executed, not axiomatised",
@@ -416,12 +512,14 @@ def main(tier="quick", seed=0, procs=None, only=None):
                       "there are >=2 floating operands", "operand kinds": ["tensor", "0-d tensor", "python int", "python float", "int tensor (labels)"],
                       "result rank classes": ["0-d", ">=1-d"], "broadcasting patterns (binary forms)": [b[0] + ":%s,%s" % b[1:] for b in BIN],
                       "upstream gradient dtypes": ["float32", "float64"], "shapes": "extents <= 6, ranks 0-4", "reductions (losses)": ["mean", "sum", "none"]}
+        guarded(run, "operands at mixed scales", scale_part, run, ck, specs)
         run.extra["configurations_run"] = len(specs)
         run.extra["failure_classes"] = ck.C.flush()
         if only:
             run.extra["filtered_only"] = only
     guarded(run, "stateful layer histories", layer_histories, run, seed)
     guarded(run, "gradient-buffer histories", grad_histories, run, seed, tier)
+    guarded(run, "upstream gradients of broadcastable shapes", upstream_shape_part, run, seed)
     run.rule = ("one evaluation = one clause (result_dtype | grad_shape | grad_dtype per leaf | root grad_shape/grad_dtype | backward_completes | float32_float64_agree) on one "
                 "(api form, pattern, operand kinds, operand dtype assignment, upstream dtype); all are distinct")
     run.explanation = ("dtype promotion is defined by NumPy and the Tensor constructor, so it is executed on the real functions over the complete finite lattice of dtype x operand kind x "
